@@ -5,6 +5,11 @@
 package main
 
 import (
+	"github.com/Cloud-Foundations/keymaster/lib/pwauth/htpassword"
+	"golang.org/x/crypto/bcrypt"
+	"path/filepath"
+	"os"
+	"fmt"
 	"database/sql"
 	"net/url"
 	"strings"
@@ -243,11 +248,72 @@ func (g *vPwWorld) step(a map[string]interface{}) map[string]interface{} {
 	return out
 }
 
+// ---------------------------------------------------------------------------
+// the htpasswd file back-end: "accepted only if the configured backend accepts it" - the backend is the FILE as it is now,
+// however it got there (edited in place, replaced by a copy that keeps an older timestamp, restored from a backup)
+
+func vBcrypt(pw string) string {
+	h, err := bcrypt.GenerateFromPassword([]byte(pw), bcrypt.MinCost)
+	vMust(err)
+	return "$2y$" + strings.TrimPrefix(string(h), "$2a$") // the prefix htpasswd(1) writes; the same algorithm
+}
+
+func runC07Ht(c map[string]interface{}, i int) []map[string]interface{} {
+	w := newWorld(vWorldOpts{CertCfg: []string{"password"}, WebUICfg: []string{"password"}})
+	defer w.Close()
+	file := filepath.Join(w.dir, "htpasswd")
+	vMust(os.WriteFile(file, []byte("nobody:"+vBcrypt("x")+"\n"), 0600))
+	auth, err := htpassword.New(file, w.st.logger)
+	vMust(err)
+	w.st.passwordChecker = auth
+	content := map[string]string{}
+	base := time.Now().Add(-time.Hour).Truncate(time.Second)
+	evs := []map[string]interface{}{{"trace": i, "ev": "Reset", "args": map[string]interface{}{"op": "reset"}, "out": map[string]interface{}{"accepted": false, "panic": false}, "post": map[string]interface{}{}}}
+	steps, _ := c["steps"].([]interface{})
+	for _, s := range steps {
+		a := s.(map[string]interface{})
+		out := map[string]interface{}{"accepted": false, "panic": false, "status": 0, "fileaccepts": false}
+		switch vStr(a, "op") {
+		case "htfile":
+			content = map[string]string{}
+			var sb strings.Builder
+			for u, pw := range vMap(a, "users") {
+				content[u] = fmt.Sprint(pw)
+				sb.WriteString(u + ":" + vBcrypt(fmt.Sprint(pw)) + "\n")
+			}
+			tmp := file + ".new"
+			vMust(os.WriteFile(tmp, []byte(sb.String()), 0600))
+			switch vStr(a, "mtime") {
+			case "older": // a copy that keeps its (older) timestamp: cp -p, rsync -t, restore from backup
+				base = base.Add(-time.Minute)
+				vMust(os.Chtimes(tmp, base, base))
+			case "same":
+				if fi, err := os.Stat(file); err == nil {
+					vMust(os.Chtimes(tmp, fi.ModTime(), fi.ModTime()))
+				}
+			}
+			vMust(os.Rename(tmp, file))
+		case "htlogin":
+			u, pw := vStr(a, "user"), vStr(a, "pw")
+			out["fileaccepts"] = content[u] == pw && pw != ""
+			r := w.Do(vReq{Method: "POST", Path: "/api/v0/login", Form: url.Values{"username": {u}, "password": {pw}}})
+			out["accepted"] = r.Status == 200 && r.Cookie(authCookieName) != nil
+			out["panic"], out["status"] = r.Panic != "", r.Status
+		}
+		evs = append(evs, map[string]interface{}{"trace": i, "ev": vStr(a, "op"), "args": a, "out": out, "post": map[string]interface{}{}})
+	}
+	return evs
+}
+
 func init() { vRunners["C07"] = runC07 }
 
 func runC07(t *testing.T, cases []map[string]interface{}, ev *vEvents) {
 	outs := make([][]map[string]interface{}, len(cases))
 	vParallel(6, len(cases), func(_, i int) {
+		if vStr(cases[i], "kind") == "htpasswd" {
+			outs[i] = runC07Ht(cases[i], i)
+			return
+		}
 		g := newPwWorld()
 		defer g.w.Close()
 		evs := []map[string]interface{}{{"trace": i, "ev": "Reset", "args": map[string]interface{}{"op": "reset"}, "out": map[string]interface{}{"accepted": false, "panic": false}, "post": g.project()}}
